@@ -75,6 +75,9 @@ type ExprOpts struct {
 	NoHeredoc   bool
 	NoNullLit   bool
 	HostileLits bool
+	// AvoidKeys: scope paths through map keys / attribute names containing one of these
+	// substrings are not used (so that the text never appears in generated source).
+	AvoidKeys []string
 }
 
 type path struct {
@@ -143,6 +146,15 @@ func (g *EG) addPaths(n ast.Node, v cty.Value, depth int) {
 		for it := v.ElementIterator(); it.Next(); {
 			k, ev := it.Element()
 			ks := k.AsString()
+			avoid := false
+			for _, a := range g.o.AvoidKeys {
+				if strings.Contains(ks, a) {
+					avoid = true
+				}
+			}
+			if avoid {
+				continue
+			}
 			if isIdent(ks) && ks != "true" && ks != "false" && ks != "null" {
 				g.addPaths(ast.GetAttr{Obj: n, Name: ks}, ev, depth+1)
 			} else {
@@ -648,7 +660,20 @@ func (g *EG) maybeExpand(c ast.Call, elemTy cty.Type, depth int) ast.Node {
 // access builds a collection and immediately reads one element of the wanted type.
 func (g *EG) access(want cty.Type, depth int) ast.Node {
 	g.feat("access")
-	switch g.intn(3, "accesskind") {
+	switch g.intn(5, "accesskind") {
+	case 3:
+		// a constructor indexed by a key that comes from the scope
+		g.feat("access_var_key")
+		n := 2 + g.intn(1, "ntuple")
+		elems := make([]ast.Node, n)
+		for i := range elems {
+			elems[i] = g.gen(want, depth+1)
+		}
+		return ast.Index{Coll: ast.Tuple{Elems: elems}, Key: g.leaf(cty.Number)}
+	case 4:
+		g.feat("access_var_key")
+		items := []ast.ObjItem{g.objItem("a", g.gen(want, depth+1)), g.objItem("b", g.gen(want, depth+1)), g.objItem("foo", g.gen(want, depth+1))}
+		return ast.Index{Coll: ast.Object{Items: items}, Key: g.leaf(cty.String)}
 	case 0:
 		n := 1 + g.intn(2, "ntuple")
 		elems := make([]ast.Node, n)
